@@ -15,7 +15,7 @@ VERIF = pathlib.Path(__file__).resolve().parent.parent
 PASS, VIOLATION, UNRECOGNISED = 'PASS', 'VIOLATION', 'UNRECOGNISED'
 
 AXIOMS = [
-    'bitsets 0.8.4 (outside /repo): MemberBits is an int subclass; & | ^ ~ == != bool() are int\'s',
+    'bitsets 0.8.4 (outside /repo): MemberBits is an int subclass; & | ^ ~ == != hash() bool() are int\'s (sets of different classes with equal bits are equal keys)',
     'bitsets: Cls.fromint wraps without changing the value; supremum = all ones over the domain; infimum = 0',
     'bitsets: frommembers = OR of the members\' atoms (order/duplicates irrelevant, unknown member -> KeyError); '
     'members() = labels of set bits in domain order, each once',
